@@ -59,7 +59,19 @@ func (p *ruleSetProcessor) loadRules(ruleSet *config.RuleSet) ([]rule.Rule, erro
 	return rules, nil
 }
 
-func (p *ruleSetProcessor) OnCreated(ruleSet *config.RuleSet) error {
+// recoverAsError converts a panic raised while processing a rule set, e.g. because of a
+// type-confused definition, into an error. The rule set is rejected in that case and the
+// previously loaded state stays in effect.
+func recoverAsError(ruleSet *config.RuleSet, err *error) {
+	if rec := recover(); rec != nil {
+		*err = errorchain.NewWithMessagef(heimdall.ErrInternal,
+			"processing of rule set '%s' failed: %v", ruleSet.Source, rec)
+	}
+}
+
+func (p *ruleSetProcessor) OnCreated(ruleSet *config.RuleSet) (err error) {
+	defer recoverAsError(ruleSet, &err)
+
 	if !p.isVersionSupported(ruleSet.Version) {
 		return errorchain.NewWithMessage(ErrUnsupportedRuleSetVersion, ruleSet.Version)
 	}
@@ -72,7 +84,9 @@ func (p *ruleSetProcessor) OnCreated(ruleSet *config.RuleSet) error {
 	return p.r.AddRuleSet(ruleSet.Source, rules)
 }
 
-func (p *ruleSetProcessor) OnUpdated(ruleSet *config.RuleSet) error {
+func (p *ruleSetProcessor) OnUpdated(ruleSet *config.RuleSet) (err error) {
+	defer recoverAsError(ruleSet, &err)
+
 	if !p.isVersionSupported(ruleSet.Version) {
 		return errorchain.NewWithMessage(ErrUnsupportedRuleSetVersion, ruleSet.Version)
 	}
@@ -85,6 +99,8 @@ func (p *ruleSetProcessor) OnUpdated(ruleSet *config.RuleSet) error {
 	return p.r.UpdateRuleSet(ruleSet.Source, rules)
 }
 
-func (p *ruleSetProcessor) OnDeleted(ruleSet *config.RuleSet) error {
+func (p *ruleSetProcessor) OnDeleted(ruleSet *config.RuleSet) (err error) {
+	defer recoverAsError(ruleSet, &err)
+
 	return p.r.DeleteRuleSet(ruleSet.Source)
 }
